@@ -500,6 +500,22 @@ def run(tier, seed):
     res.cov(states=sum(r["states"] for r in runs), transitions=sum(r["transitions"] for r in runs))
     res.coverage["explorations"] = runs
     res.coverage["invariants"] = MC_INV
+    # exploration-level keys: one evaluation = one (static or temporal) hypergraph with every centrality compared;
+    # non-trivial = the abstract input has at least two hyperedge records; distinct = different logged input
+    def _nt(cs):
+        keys = set()
+        for c in cs:
+            st = c.get("st") or c
+            edges = st.get("edges") if isinstance(st, dict) else None
+            blob = json.dumps(c.get("st", c), sort_keys=True, default=str)
+            if edges is None or len(edges) >= 2:
+                keys.add(blob)
+        return keys
+    res.cov(evaluations=len(cases) + len(tcases), distinct_nontrivial=len(_nt(cases) | _nt(tcases)),
+            rule=("one evaluation = one static or temporal hypergraph (random, 3-7 nodes, int / sparse-int / string labels incl. labels "
+                  "containing E) on which every s-centrality (s=1..3, hyperedge and node versions, temporal averages), the sub-hypergraph "
+                  "centrality and, on connected uniform ones, CEC/HEC from random starts are compared; non-trivial = at least two hyperedge "
+                  "records; distinct = different logged input"))
     res.cov(static_hypergraphs=len(cases), temporal_hypergraphs=len(tcases), relabelling_events=nrel, rejected_cases=nrej + tnrej,
             s_centrality_dicts_compared=sum(len(l["edge"]) + len(l["node"]) for l in logs + tlogs),
             values_compared=sum(len(r["values"]) for l in logs + tlogs for r in l["edge"] + l["node"]),
